@@ -44,7 +44,8 @@ def worker_root():
     global _WORKER_ROOT
     pid = os.getpid()
     if _WORKER_ROOT is None or _WORKER_ROOT[0] != pid:
-        path = os.path.join(scratch_base(), 'pipesim-%d' % pid)
+        # fixed-width name: the path is pickled into fit-file metadata, so its LENGTH must not vary between processes
+        path = os.path.join(scratch_base(), 'pipesim-%010d' % pid)
         shutil.rmtree(path, ignore_errors=True)
         os.makedirs(path)
         _WORKER_ROOT = (pid, path)
